@@ -191,6 +191,8 @@ func childPart(a vlib.Args, part string) {
 		kcases = vlPart(a, res)
 	case "db":
 		dbPart(a, res)
+	case "sweep":
+		kcases = sweepPart(a, res)
 	}
 	b, _ := json.Marshal(kcases)
 	os.WriteFile(filepath.Join(a.Out, "kcases.json"), b, 0o644)
